@@ -563,6 +563,10 @@ func init() {
 		m.GoInline = args[0].(*smt.Term).IsTrue()
 		return nil
 	}
+	I["zzverif.GoLogical"] = func(m *Machine, fn *ssa.Function, args []Value) Value {
+		m.GoLogical = args[0].(*smt.Term).IsTrue()
+		return nil
+	}
 	I["zzverif.JSONArbitrary"] = func(m *Machine, fn *ssa.Function, args []Value) Value {
 		m.ghost["json.noarbitrary"] = !args[0].(*smt.Term).IsTrue()
 		return nil
@@ -644,7 +648,8 @@ func init() {
 	}
 	I["zzverif.Concurrently"] = func(m *Machine, fn *ssa.Function, args []Value) Value {
 		m.effect("concurrently")
-		m.spawnLogical(args[0])
+		f := args[0]
+		m.spawnLogical(func() { m.callValue(f, nil, nil) })
 		return nil
 	}
 	I["zzverif.Blocked"] = func(m *Machine, fn *ssa.Function, args []Value) Value {
